@@ -8,20 +8,7 @@ from . import common as C
 
 TECHNIQUE = "static analysis: writer/reader key-format agreement (normal-form patterns), mixed-type condition detection, affine collection of the address difference, CFG ordering of scan/update/exit, lint of the ISA databases' embedded `operation` snippets (parsed, never executed)"
 EXPLANATION = (
-    "R1: register names used as keys of the register-change state are built by the writers "
-    "(ISASemantics.get_reg_changes) as (prefix or '') + name and every reader in KernelDG.is_memload "
-    "(look-up key, default entry, identity comparison) has that same normal form; a conditional "
-    "expression whose else-arm swallowed a comparison (str|None arm vs bool arm) is reported. R2: "
-    "dependency tags yielded by find_depending are all tested by create_DG; the forwarding latency is "
-    "added under exactly the store-load tag from the model key the data files define. R3: in the memory "
-    "branch the load test precedes the same-operand store test whose true path leaves the scan; "
-    "write-back to the base register leaves it too. R4: full register-change update before the tests, "
-    "post-index-only update after them on every path that continues the scan. R5: the address "
-    "difference is load.offset - store.offset + base change + index change x scale, answered true only "
-    "under == 0, mismatches/unknown changes skip the candidate. R6: _update_reg_changes adds plain "
-    "changes, takes the source's tracked value on a rename, and keeps unknown unknown. D1: every ISA-DB "
-    "`operation` parses, touches only opK['name'|'value'] of existing operands, adds only immediates to "
-    "one register base, and a rename copies name and value consistently."
+    "R1: register names used as keys of the register-change state are built by the writers (ISASemantics.get_reg_changes) as (prefix or '') + name and every reader in KernelDG.is_memload (look-up key, default entry, identity comparison) has that same normal form; a conditional expression whose else-arm swallowed a comparison (str|None arm vs bool arm) is reported. R2: dependency tags yielded by find_depending are all tested by create_DG; the forwarding latency is added under exactly the store-load tag from the model key the data files define. R3: in the memory branch the load test precedes the same-operand store test whose true path leaves the scan; write-back to the base register leaves it too. R4: full register-change update before the tests, post-index-only update after them on every path that continues the scan; the tracked state is re-initialised from the producer inside the same enclosing loops as the scan (once per destination operand), not hoisted out of them. R5: the address difference is load.offset - store.offset + base change + index change x scale, answered true only under == 0, mismatches/unknown changes skip the candidate. R6: _update_reg_changes adds plain changes, takes the source's tracked value on a rename, and keeps unknown unknown. D1: every ISA-DB `operation` parses, touches only opK['name'|'value'] of existing operands, adds only immediates to one register base, and a rename copies name and value consistently."
 )
 NOT_DECIDED = "The store/load relation on generated kernels (needs execution against an address oracle)."
 ASSUMPTIONS = [
@@ -303,6 +290,12 @@ def _r3_r4(ctx):
               "tracked state is (re)initialised from the producer before each scan", fd.where(loop),
               "the register-change state is not freshly initialised from the producing instruction before the scan",
               fd.qname, "state initialisation")
+    if len(init) == 1:
+        same = [id(l) for l in C.enclosing_loops(init[0])] == [id(l) for l in C.enclosing_loops(loop)]
+        ctx.check(same, "R4", "the state is re-initialised for every scan (same enclosing loops as the scan)", fd.where(init[0]),
+                  "`%s` is executed once, but the scan loop it feeds runs once per destination operand and updates `%s` in place: "
+                  "the second and later scans start from the register changes accumulated over the whole previous scan, so "
+                  "provably equal addresses are judged different (and vice versa)" % (U(init[0]), state), fd.qname, "state per scan")
 
 
 def _r5(ctx):
